@@ -204,6 +204,13 @@ pub fn gen_all_cases(r: &mut Rng, n: usize, n_any: usize, thorough: bool) -> Vec
         let pss = ["[[0,0],[1,0],[0,1]]", "[[0,0],[1,0],[1,1],[0,1]]", "", "[[0,0],[1,0]]", "[[0,0],[1,0],[0,1]", "[[0,0],[1,1],[1,0],[0,1]]", "[[0,0],[0,1],[0,2]]", "[[0,0],[1,0],[0,1]],[[0,0],[2,0],[0,2]]",
                    "[[0,0],[4,0],[4,4],[0,4]],[[1,1],[1,3],[3,3],[3,1]]", "[[0,0],[1,0],[x,1]]", "[[0,0],[nan,0],[0,1]]", "[[0,0],[inf,0],[0,1]]", "[[0,0],[1,0],[0,1]] x", "[[0,2],[0,1],[0,0]]", "[[2,0],[1,2],[1,0],[1,1],[0,0]]", "[[0,0],[1e300,0],[0,1e300]]"];
         let tols = [0.0, 1e-8, 1e-3, 1.0, f64::NAN, -1.0];
+        for k in 0..4 {
+            let l = format!("x{}{}", ")".repeat(k), "é".repeat(140));
+            let cfg = Cfg { ci: false, rr: 1, xr: 1, yr: 1, mi: 5, tol: 1e-6 };
+            cases.push((Case { f: l.clone(), c1: "z".into(), c2: "z".into(), ps: "[[0,0],[1,0],[0,1]]".into(), cfg: cfg.clone(), kind: "api-any", quad: None }, vec![]));
+            cases.push((Case { f: "x".into(), c1: "z".into(), c2: l.clone().replace('x', "z"), ps: "[[0,0],[1,0],[0,1]]".into(), cfg: cfg.clone(), kind: "api-any", quad: None }, vec![]));
+            cases.push((Case { f: "x".into(), c1: "z".into(), c2: "z".into(), ps: format!("[[0,0],[1,0],[0,1]]{}", l), cfg, kind: "api-any", quad: None }, vec![]));
+        }
         let n = n_any;
         for _ in 0..n {
             let cfg = Cfg { ci: r.chance(0.5), rr: *r.pick(&[0usize, 1, 4]), xr: *r.pick(&[0usize, 1, 5]), yr: *r.pick(&[0usize, 1, 5]), mi: *r.pick(&[0usize, 1, 5, 30]), tol: *r.pick(&tols) };
